@@ -730,6 +730,14 @@ var hostileSQL = []string{
 	"CREATE TABLE x (a INTEGER PRIMARY KEY) WITHOUT ROWID",
 	"create table x (rowid, oid, _rowid_)",
 	"CREATE TABLE x (a, b, PRIMARY KEY (rowid))",
+	"CREATE TABLE x (a, a, b, PRIMARY KEY (a)) WITHOUT ROWID",
+	"CREATE TABLE x (a, A, b, c, PRIMARY KEY (A, c)) WITHOUT ROWID",
+	"CREATE TABLE x (a, b, a, PRIMARY KEY (b)) WITHOUT ROWID",
+	"CREATE TABLE x (a, b, b, b, UNIQUE (b))",
+	"CREATE TABLE x (a PRIMARY KEY, b, c, d, e, f, g) WITHOUT ROWID",
+	"CREATE TABLE x (a PRIMARY KEY) WITHOUT ROWID",
+	"CREATE INDEX i ON x (a, a, a)",
+	"CREATE TABLE x (a, b, PRIMARY KEY (b, b, a, b)) WITHOUT ROWID",
 }
 
 // Hostile rewrites sqlite_master through PRAGMA writable_schema (real SQLite does
